@@ -145,8 +145,16 @@ func (g *c15gen) txn(db *ref.DB) []ref.Op {
 	g.used = map[string]bool{}
 	n := 1 + g.p.Intn(4)
 	g.names = nil
+	uuidShaped := g.p.Chance(1, 4) // a uuid-name may be any string, also one that looks like a uuid
 	for i := 0; i < n; i++ {
+		if uuidShaped {
+			g.names = append(g.names, g.p.UUID())
+			continue
+		}
 		g.names = append(g.names, fmt.Sprintf("row%c", 'A'+i))
+	}
+	if uuidShaped {
+		g.used["uuid-shaped-names"] = true
 	}
 	var ops []ref.Op
 	for i := 0; i < n; i++ {
